@@ -366,7 +366,7 @@ def r5(run, db):
     hn = [f for f in db.crate_fns(RC) if f.id.endswith("NodeSession::handle_node")]
     for f in hn:
         ss = [c for c in f.calls() if c.matches(r"ActorCell::send_serialized$")]
-        run.anchor("handle_node send_serialized sites", len(ss), 4, f.where())
+        run.anchor("handle_node send_serialized sites", len(ss), 3, f.where())
         for c in ss:
             edges = msg_variant_edges(f, c.site)
             roots = f.origins(c.args[0], through=lambda cc: 0 if cc.matches(r"Deref>::deref$|Deref::deref$") else None)
